@@ -603,6 +603,170 @@ impl<T, U, N: ArrayLength, F: Foreign1<T, U>> ForeignIter<U> for MapPipe<T, U, N
     }
     proof fn reach_map<T, U, N: ArrayLength, F: Foreign1<T, U>>(this: GenericArray<T, N>, f: F) requires this.slots.ok(), this.slots.all_live(), f.log().len() == 0, { assert(false); } /*OB:canary.map:*/
 
+
+// ===== closure conversion (rule R-pipe) of the two pipelines in GenericArray::inverted_zip =====
+pub struct ZipPipe<B, T, U, N: ArrayLength, F: Foreign2<B, T, U>> {
+    pub left: ArrayConsumer<B, N>, pub right: ArrayConsumer<T, N>, pub k: usize, pub f: F,
+    pub ret: Ghost<Seq<Option<U>>>, pub la0: Ghost<Seq<B>>, pub ra0: Ghost<Seq<T>>, pub _u: core::marker::PhantomData<U>,
+}
+impl<B, T, U, N: ArrayLength, F: Foreign2<B, T, U>> ForeignIter<U> for ZipPipe<B, T, U, N, F> {
+    type K = (Seq<B>, Seq<T>);
+    open spec fn konst(&self) -> (Seq<B>, Seq<T>) { (self.la0@, self.ra0@) }
+    open spec fn returned(&self) -> Seq<Option<U>> { self.ret@ }
+    open spec fn hint(&self) -> (usize, Option<usize>) { ((N::n() - self.k) as usize, Some((N::n() - self.k) as usize)) }
+    open spec fn inv(&self) -> bool {
+        &&& self.left.wf() && self.right.wf() && self.k <= N::n() && self.la0@.len() == N::n() && self.ra0@.len() == N::n()
+        &&& self.left.position == self.right.position
+        &&& (self.k < N::n() ==> self.left.position == self.k)
+        &&& (self.k == N::n() ==> self.left.position == N::n())
+        &&& forall|j: int| self.left.position <= j < N::n() ==> (#[trigger] self.left.array.view()[j]) == Some(self.la0@[j])
+        &&& forall|j: int| self.right.position <= j < N::n() ==> (#[trigger] self.right.array.view()[j]) == Some(self.ra0@[j])
+        &&& self.f.log().len() == self.left.position &&& forall|j: int| 0 <= j < self.left.position ==> (#[trigger] self.f.log()[j]).0 == self.la0@[j] && self.f.log()[j].1 == self.ra0@[j] &&& self.ret@.len() >= self.left.position &&& forall|j: int| 0 <= j < self.left.position ==> (#[trigger] self.ret@[j]) == Some(self.f.log()[j].2) &&& forall|j: int| self.left.position <= j < self.ret@.len() ==> (#[trigger] self.ret@[j]).is_none() &&& (self.ret@.len() > self.left.position ==> self.k == N::n())
+    }
+    fn next(&mut self) -> (r: Option<U>)
+    {
+        // Zip of two slice iterators over N slots each
+        if self.k >= N::usize_() {
+            proof { self.ret = Ghost(self.ret@.push(None)); }
+            return None;
+        }
+        let l = self.k;
+        let r = self.k;
+        self.k += 1;
+
+        let left_value = self.left.array.take(l);
+        let right_value = self.right.array.take(r);
+        self.left.position += 1;
+        self.right.position = self.left.position;
+        proof {
+            assert(self.left.wf() && self.right.wf()) /*OB:inverted_zip.unwind@closure:C04*/;
+        }
+        let __r = self.f.call(left_value, right_value);
+        proof {
+            self.ret = Ghost(self.ret@.push(Some(__r)));
+        }
+        Some(__r)
+    }
+    fn size_hint(&self) -> (r: (usize, Option<usize>)) { (N::usize_() - self.k, Some(N::usize_() - self.k)) }
+}
+// the pipeline of the branch for element types WITHOUT drop glue: no guards; whatever is still in the two blocks when the
+// closure panics is simply forgotten, which is fine only because neither element type has drop glue
+pub struct PlainZipPipe<B, T, U, N: ArrayLength, F: Foreign2<B, T, U>> {
+    pub left: Slots<B, N>, pub right: Slots<T, N>, pub k: usize, pub f: F, pub nd_b: bool, pub nd_t: bool,
+    pub ret: Ghost<Seq<Option<U>>>, pub la0: Ghost<Seq<B>>, pub ra0: Ghost<Seq<T>>, pub _u: core::marker::PhantomData<U>,
+}
+impl<B, T, U, N: ArrayLength, F: Foreign2<B, T, U>> ForeignIter<U> for PlainZipPipe<B, T, U, N, F> {
+    type K = (Seq<B>, Seq<T>);
+    open spec fn konst(&self) -> (Seq<B>, Seq<T>) { (self.la0@, self.ra0@) }
+    open spec fn returned(&self) -> Seq<Option<U>> { self.ret@ }
+    open spec fn hint(&self) -> (usize, Option<usize>) { ((N::n() - self.k) as usize, Some((N::n() - self.k) as usize)) }
+    open spec fn inv(&self) -> bool {
+        &&& self.left.ok() && self.right.ok() && self.k <= N::n() && self.la0@.len() == N::n() && self.ra0@.len() == N::n()
+        &&& !self.nd_b && !self.nd_t          // this pipeline is only built when neither element type has drop glue
+        &&& forall|j: int| 0 <= j < N::n() ==> ((#[trigger] self.left.view()[j]).is_some() <==> j >= self.k)
+        &&& forall|j: int| 0 <= j < N::n() ==> ((#[trigger] self.right.view()[j]).is_some() <==> j >= self.k)
+        &&& forall|j: int| self.k <= j < N::n() ==> (#[trigger] self.left.view()[j]) == Some(self.la0@[j])
+        &&& forall|j: int| self.k <= j < N::n() ==> (#[trigger] self.right.view()[j]) == Some(self.ra0@[j])
+        &&& self.f.log().len() == self.k &&& forall|j: int| 0 <= j < self.k ==> (#[trigger] self.f.log()[j]).0 == self.la0@[j] && self.f.log()[j].1 == self.ra0@[j] &&& self.ret@.len() >= self.k &&& forall|j: int| 0 <= j < self.k ==> (#[trigger] self.ret@[j]) == Some(self.f.log()[j].2) &&& forall|j: int| self.k <= j < self.ret@.len() ==> (#[trigger] self.ret@[j]).is_none() &&& (self.ret@.len() > self.k ==> self.k == N::n())
+    }
+    fn next(&mut self) -> (r: Option<U>)
+    {
+        if self.k >= N::usize_() {
+            proof { self.ret = Ghost(self.ret@.push(None)); }
+            return None;
+        }
+        let l = self.k;
+        let r = self.k;
+        self.k += 1;
+        // closure body: f(ptr::read(l), ptr::read(r))
+        let __a = self.left.take(l);
+        let __b = self.right.take(r);
+        proof { assert((!self.nd_b || self.left.all_dead()) && (!self.nd_t || self.right.all_dead())) /*OB:inverted_zip.unwind@closure-unguarded-blocks-hold-nothing-that-needs-drop:C04*/; }
+        let __r = self.f.call(__a, __b);
+        proof { self.ret = Ghost(self.ret@.push(Some(__r))); }
+        Some(__r)
+    }
+    fn size_hint(&self) -> (r: (usize, Option<usize>)) { (N::usize_() - self.k, Some(N::usize_() - self.k)) }
+}
+
+    // extracted from src/lib.rs:305  `fn inverted_zip<B, U, F>( self, lhs: GenericArray<B, Self::Length>, mut f: F, ) -> MappedSequence<GenericArray<B, Self::Length>, B, U> where GenericArray<B, Self::Length>: GenericSequence<B, Length = Self::Length> + MappedGenericSequence<B, U>, Self: MappedGenericSequence<T, U>, F: FnMut(B, Self::Item) -> U,`
+    pub fn inverted_zip<B, T, U, N: ArrayLength, F: Foreign2<B, T, U>>(this: GenericArray<T, N>, lhs: GenericArray<B, N>, f: F, nd_t: bool, nd_b: bool) -> (ret: (PanicOr<GenericArray<U, N>>, F))
+        requires
+            this.slots.ok(),
+            this.slots.all_live(),
+            lhs.slots.ok(),
+            lhs.slots.all_live(),
+            f.log().len() == 0,
+        ensures
+            ret.0 is Ret, /*OB:inverted_zip.post.never-the-length-panic:C08*/
+            ret.1.log().len() == N::n(), /*OB:inverted_zip.post.once-per-index:C08*/
+            forall|k: int| 0 <= k < N::n() ==> (#[trigger] ret.1.log()[k]).0 == lhs.elems()[k] && ret.1.log()[k].1 == this.elems()[k], /*OB:inverted_zip.post.pairs-ascending:C08*/
+            forall|k: int| 0 <= k < N::n() ==> (#[trigger] ret.0->Ret_0.elems()[k]) == ret.1.log()[k].2, /*OB:inverted_zip.post.result-k-at-index-k:C08*/
+    {
+        let ghost la0 = lhs.elems();
+        let ghost ra0 = this.elems();
+        {
+            if nd_t || nd_b {
+                let left = ArrayConsumer::new(lhs);
+                let right = ArrayConsumer::new(this);
+                {
+                    let mut pipe = ZipPipe {
+                        left: left, right: right, k: 0, f: f, ret: Ghost(Seq::empty()), la0: Ghost(la0), ra0: Ghost(ra0), _u: core::marker::PhantomData
+                    };
+                    proof {
+                        assert(pipe.inv());
+                    }
+                    let r = from_iter::<U, N, ZipPipe<B, T, U, N, F>>(&mut pipe);
+                    proof {
+                        assert(pipe.left.position == N::n());
+                        assert(pipe.la0@ == la0 && pipe.ra0@ == ra0);
+                        assert forall|k: int| 0 <= k < N::n() implies (#[trigger] r->Ret_0.elems()[k]) == pipe.f.log()[k].2 by {
+                            assert(pipe.returned()[k] == Some(r->Ret_0.elems()[k]));
+                            assert(pipe.ret@[k] == Some(pipe.f.log()[k].2));
+                        }
+                    }
+                    let ZipPipe {
+                        left, right, k: _, f, ret: _, la0: _, ra0: _, _u: _
+                    }
+                    = pipe;
+                    let mut left = left;
+                    let mut right = right;
+                    right.drop_impl();
+                    left.drop_impl();
+                    (r, f)
+                }
+            }  else {
+                let left = lhs.slots;
+                let right = this.slots;
+                {
+                    let mut pipe = PlainZipPipe {
+                        left: left, right: right, k: 0, f: f, nd_b: nd_b, nd_t: nd_t, ret: Ghost(Seq::empty()), la0: Ghost(la0), ra0: Ghost(ra0), _u: core::marker::PhantomData
+                    };
+                    proof {
+                        assert(pipe.inv());
+                    }
+                    let r = from_iter::<U, N, PlainZipPipe<B, T, U, N, F>>(&mut pipe);
+                    proof {
+                        assert(pipe.k == N::n());
+                        assert(pipe.la0@ == la0 && pipe.ra0@ == ra0);
+                        assert forall|k: int| 0 <= k < N::n() implies (#[trigger] r->Ret_0.elems()[k]) == pipe.f.log()[k].2 by {
+                            assert(pipe.returned()[k] == Some(r->Ret_0.elems()[k]));
+                            assert(pipe.ret@[k] == Some(pipe.f.log()[k].2));
+                        }
+                    }
+                    let PlainZipPipe {
+                        left, right, k: _, f, nd_b: _, nd_t: _, ret: _, la0: _, ra0: _, _u: _
+                    }
+                    = pipe;
+                    left.scope_exit_unowned() /*OB:inverted_zip.nothing-live-leaves-scope-unowned:C03*/;
+                    right.scope_exit_unowned() /*OB:inverted_zip.nothing-live-leaves-scope-unowned-right:C03*/;
+                    (r, f)
+                }
+            }
+        }
+    }
+    proof fn reach_inverted_zip<B, T, U, N: ArrayLength, F: Foreign2<B, T, U>>(this: GenericArray<T, N>, lhs: GenericArray<B, N>, f: F, nd_t: bool, nd_b: bool) requires this.slots.ok(), this.slots.all_live(), lhs.slots.ok(), lhs.slots.all_live(), f.log().len() == 0, { assert(false); } /*OB:canary.inverted_zip:*/
+
 proof fn canary() { assert(false); } /*OB:canary:*/
 } // verus!
 fn main() {}
